@@ -8,7 +8,7 @@ From Coq Require Import ZArith List Bool Arith Lia.
 From SP Require Import Base.Sat Base.Bits Core.CnfModel Core.Card Core.CnfProofs Core.CardProofs.
 From SP Require Import Design.Flat Design.Layout Design.Sem.
 From SP Require Import Encode.Compile Encode.CodeSem Encode.Generic Encode.Blocks Encode.Runs
-     Encode.GridLemmas Encode.CrossChunks Encode.LayoutF1 Encode.F1Kinds Encode.F1Cross Encode.F1Deriv Encode.F1DerivC
+     Encode.GridLemmas Encode.CrossChunks Encode.LayoutF1 Encode.F1Kinds Encode.F1Cross Encode.F1Deriv Encode.F1DerivC Encode.F1Sem Encode.F1Sustain
      Encode.F1InARow Encode.F1Sequential Encode.CompileProofs Encode.CompileCorollaries.
 From SP Require Sample.Decode Sample.DecodeProofs Design.LayoutWf Sample.DecodeWf.
 Import ListNotations.
@@ -69,13 +69,14 @@ Proof.
   destruct c; cbn [apply_constraint]; try (cbn [constraint_f1] in Hc; discriminate); try (eexists; reflexivity).
   - (* Cross *) exact (crossings_total _ 0 fresh (f1_crossings fb Facts)).
   - (* Consistency *) rewrite (f1_consistency fb HF1 fresh). eexists. reflexivity.
+  - (* Sustain *) exact (sustain_total fb HF1 HT fresh).
   - (* Derivation *)
     destruct (is_complex fb factor) eqn:Hcx.
     + destruct (derivc_formulas_eq fb HF1 HT _ _ _ Hin Hcx) as (fd & w & l & lv & Efd & Ew & Elv & Hf & Hc' & Hl & Hdd & Hd & He & L & EF).
       unfold apply_derivation. replace (derived_idx <? grid_variables fb) with false.
       2:{ symmetry. apply Nat.ltb_ge. rewrite (f1_grid fb). lia. }
       unfold deriv_complex. change (factor_at fb factor) with (nth_error (fl_design fb) factor). rewrite Efd, Ew.
-      rewrite (f1_sustain fb Facts factor) in *. cbn [Nat.eqb]. rewrite L. cbn [cbind].
+      rewrite (f1_sustain_cx fb HF1 factor Hf Hcx) in *. cbn [Nat.eqb]. rewrite L. cbn [cbind].
       destruct (cnf_fn _ _) as [cls fresh']. eexists. reflexivity.
     + destruct (deriv_shape fb HF1 HT _ _ _ Hin Hcx) as (fd & w & l & lv & Efd & Ew & Elv & Hf & Hl & Hd & Hdeps & Hlt & Hent).
       assert (Hdv : derived_idx < vpt fb) by (pose proof (f1_off_vpt fb HF1 factor (proj2 (sact_split fb factor) (conj Hf Hcx))); lia).
